@@ -309,6 +309,11 @@ func parseGroupName(prefix string, p string) string {
 		return ""
 	}
 
+	// the group layer rejects backslashes on every system
+	if strings.ContainsRune(name, '\\') {
+		return ""
+	}
+
 	if filepath.Separator != '/' &&
 		strings.ContainsRune(name, filepath.Separator) {
 		return ""
